@@ -1880,13 +1880,17 @@ fn read_residuals<R: BitRead, I: SignedInteger>(
                     partition.iter_mut().try_for_each(|s| {
                         let msb = reader.read_unary::<1>()?;
                         let lsb = reader.read_counted::<RICE_MAX, u32>(rice)?;
+                        // a code that stands for more than 32 bits is no residual
+                        if msb > u32::MAX >> u32::from(rice) {
+                            return Err(Error::ResidualOverflow);
+                        }
                         let unsigned = (msb << u32::from(rice)) | lsb;
                         *s = if (unsigned & 1) == 1 {
                             -(I::from_u32(unsigned >> 1)) - I::ONE
                         } else {
                             I::from_u32(unsigned >> 1)
                         };
-                        Ok::<(), std::io::Error>(())
+                        Ok::<(), Error>(())
                     })?;
                 }
                 ResidualPartitionHeader::Escaped { escape_size } => {
